@@ -102,7 +102,14 @@ void vec_case(Out& out, Rng& rng, int op, uint64_t nn, int64_t p, uint64_t k, ui
   for (uint64_t x = 0; x < arena.size(); x++) {
     bool in_res = false;
     for (uint64_t i = 0; i < rsz; i++) if (x >= R.off + i * rsl && x < R.off + i * rsl + nn) in_res = true;
-    if (!in_res && arena[x] != before[x]) verdict = std::string("FAIL C08 ") + VN[op] + " wrote outside its result limbs";
+    if (!in_res && arena[x] != before[x]) {
+      // tagged for the property whose check runs this op (C05 normalize wrapper, C07 AVX wrappers, C08 otherwise), joined
+      // with an earlier verdict instead of replacing it
+      const char* tag = (op == V_NORM) ? "FAIL C05 " : (op >= NV ? "FAIL C07 " : "FAIL C08 ");
+      std::string v = std::string(tag) + VN[op] + " wrote outside its result limbs";
+      verdict = (verdict == "ok" || verdict == "na") ? v : verdict + " ;; " + v;
+      break;
+    }
   }
   out.endcase(verdict);
   out.count(VN[op]);
